@@ -26,6 +26,7 @@ use tantivy::{DocAddress, Index, IndexWriter, ReloadPolicy, TantivyDocument, Ter
 use tvh::coqfmt as cf;
 use tvh::out::CaseOut;
 use tvh::rng::Rng;
+use tvh::vdir::{OpKind, VerifDirectory};
 use tvh::{guarded, Args};
 
 const HEADER: &str = "From TV Require Import Base.Prelude Indexing.Replay Indexing.Opstamp Indexing.DeleteQueue Indexing.Writer Indexing.WriterObs.\n\
@@ -47,7 +48,36 @@ enum BOp { Add(Doc), Del(Q) }
 enum Op { Add(Doc), Del(Q), Batch(Vec<BOp>), DeleteAll, Commit(Option<u64>), Rollback, Abort, Reopen }
 /// a step of a run: a call of the history, or an auxiliary action the specification does not see
 #[derive(Clone, Debug)]
-enum Step { Op(Op, bool /* variant: Commit via prepare_commit / Reopen via wait_merging_threads */), Merge(usize), Peek /* load a searcher without committing */ }
+enum Step {
+    Op(Op, bool /* variant: Commit via prepare_commit / Reopen via wait_merging_threads */), Merge(usize), Peek /* load a searcher without committing */,
+    /// start a merge of all committed segments and park its merge thread at the first file it creates
+    MergeParked,
+    /// let the parked merge finish; park the segment-updater thread inside the end_merge task it has accepted
+    /// (at the `.del` file it writes when deletes were committed during the merge)
+    ReleaseMergeParkUpdater,
+    /// release the parked updater task (its writer may be dead by now), wait until storage is quiet, load a searcher
+    ReleaseUpdater,
+}
+
+static UPDATER_PARKED: std::sync::atomic::AtomicU64 = std::sync::atomic::AtomicU64::new(0);
+/// one-shot gate: once armed, the first thread that passes is held until released
+#[derive(Default)]
+struct Gate { st: std::sync::Mutex<(bool, bool, bool)> /* armed, entered, released */, cv: std::sync::Condvar }
+impl Gate {
+    fn arm(&self) { *self.st.lock().unwrap() = (true, false, false); }
+    fn pass(&self) {
+        let mut g = self.st.lock().unwrap();
+        if !g.0 { return; }
+        g.0 = false; g.1 = true; self.cv.notify_all();
+        while !g.2 { g = self.cv.wait(g).unwrap(); }
+    }
+    fn wait_entered(&self, secs: u64) -> bool {
+        let g = self.st.lock().unwrap();
+        let (g, _) = self.cv.wait_timeout_while(g, std::time::Duration::from_secs(secs), |g| !g.1).unwrap();
+        g.1
+    }
+    fn release(&self) { let mut g = self.st.lock().unwrap(); g.0 = false; g.2 = true; self.cv.notify_all(); }
+}
 
 impl Q {
     fn matches(&self, d: &Doc) -> bool { match self { Q::Tag(t) => d.tag == *t, Q::IdRange(lo, hi) => *lo <= d.id && d.id <= *hi } }
@@ -212,13 +242,71 @@ fn del_query(f: &Fields, q: &Q) -> Box<dyn tantivy::query::Query> {
 /// runs the steps; one observation per `Step::Op`
 fn run_impl(steps: &[Step], cfg: Config) -> Result<(Vec<Obs>, Vec<(usize, Vec<Doc>)>), String> {
     let (schema, f) = schema();
-    let index = Index::create_in_ram(schema);
+    let gated = steps.iter().any(|s| matches!(s, Step::MergeParked | Step::ReleaseMergeParkUpdater | Step::ReleaseUpdater));
+    let merge_gate = std::sync::Arc::new(Gate::default());
+    let updater_gate = std::sync::Arc::new(Gate::default());
+    let vd = if gated { Some(VerifDirectory::new()) } else { None };
+    let index = match &vd {
+        None => Index::create_in_ram(schema),
+        Some(vd) => {
+            vd.inner.lock().unwrap().record_data = false;
+            let (mg, ug) = (merge_gate.clone(), updater_gate.clone());
+            vd.set_hook(Some(std::sync::Arc::new(move |_vd, _seq, kind, path| {
+                if *kind != OpKind::Create || path.starts_with('.') { return; }
+                let name = std::thread::current().name().unwrap_or("").to_string();
+                if name.starts_with("merge_thread") { mg.pass(); }
+                if name.starts_with("segment_updater") && path.ends_with(".del") { ug.pass(); }
+            })));
+            Index::create(vd.clone(), schema, tantivy::IndexSettings::default()).map_err(|e| format!("create: {e:?}"))?
+        }
+    };
+    let release_all = || { merge_gate.release(); updater_gate.release(); };
+    let r = run_steps(steps, cfg, &index, &f, vd.as_ref(), &merge_gate, &updater_gate);
+    release_all();
+    if let Some(vd) = &vd { vd.set_hook(None); }
+    r
+}
+
+fn quiesce(vd: &VerifDirectory) {
+    let t0 = std::time::Instant::now();
+    let mut last = vd.log_len();
+    let mut stable = 0;
+    while t0.elapsed() < std::time::Duration::from_secs(8) && stable < 2 {
+        std::thread::sleep(std::time::Duration::from_millis(60));
+        let now = vd.log_len();
+        if now == last { stable += 1; } else { stable = 0; last = now; }
+    }
+}
+
+fn run_steps(steps: &[Step], cfg: Config, index: &Index, f: &Fields, vd: Option<&VerifDirectory>, merge_gate: &Gate, updater_gate: &Gate) -> Result<(Vec<Obs>, Vec<(usize, Vec<Doc>)>), String> {
+    let f = *f;
+    let index = index.clone();
     let mut writer = Some(new_writer(&index, cfg)?);
     let mut obs: Vec<Obs> = vec![];
     let mut peeks: Vec<(usize, Vec<Doc>)> = vec![];
     for st in steps {
         match st {
             Step::Peek => { if !obs.is_empty() { peeks.push((obs.len() - 1, read_back(&index, &f)?.1)); } }
+            Step::MergeParked => {
+                let ids = index.searchable_segment_ids().map_err(|e| format!("{e:?}"))?;
+                if ids.len() >= 2 {
+                    merge_gate.arm();
+                    let _fut = writer.as_mut().unwrap().merge(&ids);
+                    if !merge_gate.wait_entered(20) { return Err("the merge thread never reached its first file".into()); }
+                }
+            }
+            Step::ReleaseMergeParkUpdater => {
+                updater_gate.arm();
+                merge_gate.release();
+                // not reached when the end of the merge has no delete file to write: the scenario is then a plain history
+                if updater_gate.wait_entered(3) { UPDATER_PARKED.fetch_add(1, std::sync::atomic::Ordering::SeqCst); }
+                if vd.is_some() && !updater_gate.st.lock().unwrap().1 { quiesce(vd.unwrap()); }
+            }
+            Step::ReleaseUpdater => {
+                updater_gate.release();
+                if let Some(vd) = vd { quiesce(vd); }
+                if !obs.is_empty() { peeks.push((obs.len() - 1, read_back(&index, &f)?.1)); }
+            }
             Step::Merge(k) => {
                 let mut ids = index.searchable_segment_ids().map_err(|e| format!("{e:?}"))?;
                 ids.sort();
@@ -357,6 +445,36 @@ fn bulk_history(rng: &mut Rng, threads: usize, transactions: usize, with_restore
     steps.push(Step::Op(Op::Commit(None), false));
     steps
 }
+/// Two writer generations: a merge of committed segments of writer 1 is in flight, deletes are committed meanwhile (so the
+/// end of the merge has a delete file to write), the end_merge task is accepted by writer 1's updater and parked there;
+/// writer 1 is dropped or rolled back; writer 2 commits; only then the old task runs to its end.  Whatever the dead
+/// writer's updater still does, a freshly loaded searcher must show writer 2's commits.
+fn stale_updater_history(rng: &mut Rng, rollback: bool) -> Vec<Step> {
+    let mut g = Gen { next_id: 0 };
+    let mut steps = vec![];
+    let mut tags: Vec<u64> = vec![];
+    for _ in 0..(2 + rng.below(2)) {                       // 2..3 committed segments
+        for _ in 0..(1 + rng.below(3)) { let d = g.doc(rng); tags.push(d.tag); steps.push(op(Op::Add(d))); }
+        steps.push(op(Op::Commit(None)));
+    }
+    steps.push(Step::MergeParked);
+    for _ in 0..(1 + rng.below(2)) { steps.push(op(Op::Del(Q::Tag(*rng.pick(&tags))))); }
+    if rng.chance(1, 3) { steps.push(op(Op::Add(g.doc(rng)))); }
+    steps.push(op(Op::Commit(if rng.chance(1, 2) { Some(rng.below(100)) } else { None })));
+    steps.push(Step::ReleaseMergeParkUpdater);
+    if rng.chance(1, 3) { steps.push(op(Op::Del(g.query(rng)))); }          // an uncommitted delete dies with writer 1
+    steps.push(op(if rollback { Op::Rollback } else { Op::Reopen }));
+    for _ in 0..(1 + rng.below(2)) {                       // writer 2 commits once or twice
+        for _ in 0..(1 + rng.below(3)) { steps.push(op(Op::Add(g.doc(rng)))); }
+        if rng.chance(1, 3) { steps.push(op(Op::Del(g.query(rng)))); }
+        steps.push(op(Op::Commit(if rng.chance(1, 2) { Some(rng.below(100)) } else { None })));
+    }
+    steps.push(Step::ReleaseUpdater);
+    if rng.chance(1, 2) { steps.push(op(Op::Rollback)); steps.push(Step::Peek); }
+    steps.push(op(Op::Add(g.doc(rng))));
+    steps.push(op(Op::Commit(None)));
+    steps
+}
 fn ops_of(steps: &[Step]) -> Vec<Op> { steps.iter().filter_map(|s| if let Step::Op(o, _) = s { Some(o.clone()) } else { None }).collect() }
 
 /// the predicate `spec_opstamps` of WriterObs.v, on this side (only to choose the kind of case; Coq decides)
@@ -423,9 +541,9 @@ struct Ctx { f1_fixed: bool }
 fn emit_history(out: &mut CaseOut, rng: &mut Rng, ctx: &Ctx, steps: &[Step], cfg: Config, label: &str, expect_known: Option<&str>) {
     let h = ops_of(steps);
     let hc = hist_coq(&h);
-    let has_merge = steps.iter().any(|s| matches!(s, Step::Merge(_) | Step::Peek));
+    let has_merge = steps.iter().any(|s| !matches!(s, Step::Op(_, _)));
     let desc = json!({"what": label, "threads": cfg.threads, "log_merge": cfg.log_merge, "explicit_merges": has_merge, "ops": h.len(), "history": hc,
-                      "variants": steps.iter().map(|s| match s { Step::Op(_, v) => if *v { "v" } else { "-" }, Step::Merge(_) => "m", Step::Peek => "p" }).collect::<Vec<_>>().join("")});
+                      "variants": steps.iter().map(|s| match s { Step::Op(_, v) => if *v { "v" } else { "-" }, Step::Merge(_) => "m", Step::Peek => "p", Step::MergeParked => "M", Step::ReleaseMergeParkUpdater => "U", Step::ReleaseUpdater => "R" }).collect::<Vec<_>>().join("")});
     let (obs, peeks) = match guarded(|| run_impl(steps, cfg)) {
         Ok(Ok(o)) => o,
         Ok(Err(e)) => { out.spec_checked(false, json!({"what": "implementation error or inconsistent readings", "error": e, "case": desc})); return; }
@@ -617,6 +735,13 @@ fn main() {
         let steps = g.history(&mut rng, len, allow_delete_all, allow_merge);
         emit_history(&mut out, &mut rng, &ctx, &steps, cfg, "generated", None);
     }
+    // ---------------- a task of a dead writer's updater outlives it ----------------
+    let n_stale = if thorough { 16 } else { 4 };
+    for i in 0..n_stale {
+        let steps = stale_updater_history(&mut rng, i % 2 == 1);
+        emit_history(&mut out, &mut rng, &ctx, &steps, det, "stale-updater", None);
+    }
+    out.count("stale_updater_tasks_parked_across_writer_death", UPDATER_PARKED.load(std::sync::atomic::Ordering::SeqCst));
     // ---------------- histories cut by the memory budget ----------------
     let n_bulk = if thorough { 20 } else { 6 };
     for i in 0..n_bulk {
